@@ -96,6 +96,17 @@ func TestVerifStateStore(t *testing.T) {
 	}
 	seed, n, length := envInt("VERIF_SEED", 1), envInt("VERIF_N", 10), envInt("VERIF_LEN", 40)
 	first := envInt("VERIF_FIRST", 1)
+	if os.Getenv("VERIF_MODE") != "prune" {
+		// every mutator once (setting AND clearing variants), each alone in its Lock/Unlock section: the
+		// per-step persistence oracle then decides "this call alone marked the state modified" for all of them
+		sweep := sweepOps()
+		runCase(w, 800000+first, func(h *harness, i int) (Op, bool) {
+			if i > len(sweep) {
+				return Op{}, false
+			}
+			return sweep[i-1], true
+		})
+	}
 	for c := first; c < first+n; c++ {
 		r := rand.New(rand.NewSource(int64(seed)*1000003 + int64(c)))
 		g := &gen{r: r, prune: os.Getenv("VERIF_MODE") == "prune"}
@@ -116,5 +127,36 @@ func TestVerifStateStore(t *testing.T) {
 			}
 			return Op{"Tick", M{"h": h.nowH + 1}}, true
 		})
+	}
+}
+
+func sweepOps() []Op {
+	at := (H + 3) * TU
+	return []Op{
+		{"NewChange", M{"kind": "install", "summary": "s1"}},
+		{"NewTask", M{"kind": "download", "summary": "t1"}}, {"NewTask", M{"kind": "link", "summary": "t 2"}},
+		{"AddTask", M{"c": 1, "t": 1}}, {"AddTask", M{"c": 1, "t": 2}}, {"WaitFor", M{"a": 2, "b": 1}},
+		{"NewLane", M{}}, {"JoinLane", M{"t": 1, "lane": 1}},
+		{"At", M{"t": 1, "when": at}}, {"At", M{"t": 1, "when": 0}}, {"At", M{"t": 2, "when": at}},
+		{"TaskSet", M{"t": 1, "k": "k1", "v": "1"}}, {"TaskSet", M{"t": 1, "k": "k1", "v": ""}},
+		{"TaskSet", M{"t": 1, "k": "k2", "v": "true"}}, {"TaskClear", M{"t": 1, "k": "k2"}},
+		{"ChangeSet", M{"c": 1, "k": "k1", "v": "\"x\""}}, {"ChangeSet", M{"c": 1, "k": "k1", "v": ""}},
+		{"StateSet", M{"k": "k3", "v": "{\"a\":[1,2]}"}}, {"StateSet", M{"k": "k3", "v": ""}},
+		{"Log", M{"t": 1, "lvl": "INFO", "msg": "m"}}, {"Log", M{"t": 2, "lvl": "ERROR", "msg": "two words"}},
+		{"SetProgress", M{"t": 1, "label": "dl", "done": 3, "total": 3}},
+		{"NewTask", M{"kind": "link", "summary": "t1"}}, // stays unlinked
+		{"At", M{"t": 3, "when": at}}, {"At", M{"t": 3, "when": 0}}, {"TaskSet", M{"t": 3, "k": "k1", "v": "1"}},
+		{"SetToWait", M{"t": 2, "s": "Done"}}, {"SetToWait", M{"t": 2, "s": "Undone"}}, {"SetStatus", M{"t": 2, "s": "Done"}},
+		{"At", M{"t": 2, "when": 0}},
+		{"SetStatus", M{"t": 1, "s": "Doing"}}, {"SetStatus", M{"t": 1, "s": "Done"}},
+		{"SetClean", M{"t": 1}}, {"SetClean", M{"t": 2}},
+		{"AddNotice", M{"user": -1, "type": "warning", "key": "a", "data": [][]string{}, "rep": 0, "time": 0}},
+		{"AddNotice", M{"user": 1000, "type": "warning", "key": "a", "data": [][]string{{"k", "v"}}, "rep": 30, "time": 0}},
+		{"AddNotice", M{"user": -1, "type": "warning", "key": "a", "data": [][]string{{"k", "v"}}, "rep": 30, "time": 0}},
+		{"AddWarning", M{"msg": "w1", "rep": 1, "time": 0}}, {"AddWarning", M{"msg": "w1", "rep": 24, "time": 0}},
+		{"OkayWarnings", M{"t": (H - 100) * TU}}, {"RemoveWarning", M{"msg": "w1"}},
+		{"ChangeSetStatus", M{"c": 1, "s": "Error"}}, {"ChangeSetStatus", M{"c": 1, "s": "Default"}},
+		{"SaveReload", M{}},
+		{"NewLane", M{}}, {"NewTask", M{"kind": "link", "summary": "t1"}}, {"NewChange", M{"kind": "refresh", "summary": "s 2"}},
 	}
 }
